@@ -24,7 +24,7 @@ type discipline struct {
 	commit   map[uint64]map[gpbft.ActorID]*gpbft.ECChain
 	decide   map[gpbft.ActorID]*gpbft.ECChain
 	converge map[uint64]map[gpbft.ActorID]cvEntry
-	proven   map[gpbft.ECChainKey]bool
+	proven   map[string]bool
 
 	ownPrepare     map[uint64]*gpbft.ECChain
 	prepareTimeout map[uint64]time.Time
@@ -62,7 +62,7 @@ func (d *discipline) reset(k uint64, input *gpbft.ECChain, info *InstanceInfo) {
 	d.commit = map[uint64]map[gpbft.ActorID]*gpbft.ECChain{}
 	d.decide = map[gpbft.ActorID]*gpbft.ECChain{}
 	d.converge = map[uint64]map[gpbft.ActorID]cvEntry{}
-	d.proven = map[gpbft.ECChainKey]bool{}
+	d.proven = map[string]bool{}
 	d.ownPrepare = map[uint64]*gpbft.ECChain{}
 	d.prepareTimeout = map[uint64]time.Time{}
 	d.qualityProposal = nil
@@ -107,10 +107,10 @@ func (d *discipline) onSetAlarm(at time.Time) {
 }
 
 func (d *discipline) foreign(msg *gpbft.GMessage) bool {
-	if !msg.Vote.SupplementalData.Eq(&d.info.Supp) {
+	if !suppEq(&msg.Vote.SupplementalData, &d.info.Supp) {
 		return true
 	}
-	if !msg.Vote.Value.IsZero() && !msg.Vote.Value.HasBase(d.input.Base()) {
+	if !isBottom(msg.Vote.Value) && !hasBase(msg.Vote.Value, d.input.TipSets[0]) {
 		return true
 	}
 	return false
@@ -155,7 +155,7 @@ func (d *discipline) ingest(msg *gpbft.GMessage) {
 		return
 	}
 	if msg.Justification != nil {
-		d.proven[msg.Justification.Vote.Value.Key()] = true
+		d.proven[chainID(msg.Justification.Vote.Value)] = true
 	}
 	r := msg.Vote.Round
 	switch msg.Vote.Phase {
@@ -222,7 +222,7 @@ func (d *discipline) support(votes map[gpbft.ActorID]*gpbft.ECChain, v *gpbft.EC
 }
 
 func (d *discipline) hasQuorumProof(v *gpbft.ECChain) bool {
-	if d.proven[v.Key()] {
+	if d.proven[chainID(v)] {
 		return true
 	}
 	for _, votes := range d.prepare {
@@ -262,7 +262,7 @@ func (d *discipline) onBroadcastAttempt(mb *gpbft.MessageBuilder, msg *gpbft.GMe
 		w.fail("C07", "decide_round_nonzero", "decide", "member %d emitted DECIDE with round %d", m.ID, p.Round)
 		return
 	}
-	if !p.SupplementalData.Eq(&d.info.Supp) {
+	if !suppEq(&p.SupplementalData, &d.info.Supp) {
 		w.fail("C07", "emitted_wrong_supplement", "supp", "member %d emitted foreign supplemental data", m.ID)
 		return
 	}
@@ -320,7 +320,7 @@ func (d *discipline) onBroadcastAttempt(mb *gpbft.MessageBuilder, msg *gpbft.GMe
 			}
 		}
 	case gpbft.COMMIT_PHASE:
-		if v.IsZero() {
+		if isBottom(v) {
 			prop := d.ownPrepare[p.Round]
 			if prop != nil {
 				sup, senders := d.support(d.prepare[p.Round], prop)
@@ -339,7 +339,7 @@ func (d *discipline) onBroadcastAttempt(mb *gpbft.MessageBuilder, msg *gpbft.GMe
 			}
 		}
 	}
-	if !v.IsZero() && !isPrefixOf(v, d.input) {
+	if !isBottom(v) && !isPrefixOf(v, d.input) {
 		w.r.Probe("vote_for_foreign_value")
 		if !d.hasQuorumProof(v) {
 			w.fail("C07", "vote_without_proof", p.Phase.String(),
